@@ -40,6 +40,12 @@ for pid, text, tech in [
      "fuzzing / property-based testing: mutation + token-soup generators with an outcome-classification oracle (Hypothesis; atheris in the thorough tier)"),
     ("C19", "Complete enumeration of the finite vocabulary product (block type x parent context x schema property x position x value alternative x representative value) as minimal document models, plus all parent/child edges, all declared defaults and create(type, version) over all schema files x 7 versions; oracle: reference dictionary, printer log records, round trip, validation messages.",
      "exhaustive enumeration of a finite configuration product with a reference-model oracle"),
+    ("C07", "Generated-input search: Hypothesis-drawn schema-valid documents of every root type with 0-2 injected faults at drawn depths and list indexes (each fault confirmed invalid by the Draft-4 evaluator), plus arbitrary generated documents; oracles: by-construction expectation of the named messages, differential against jsonschema Draft 4 over the harness's own inlined schema copy, never-raises, metamorphic relations (value case, hidden keys, key case, list of roots).",
+     "property-based testing: fault injection with by-construction and differential (reference evaluator) oracles, metamorphic relations (Hypothesis)"),
+    ("C08", "Generated-input search: the independent renderer knows the line and column of every token it writes under a Hypothesis-drawn surface; recorded positions of objects, keywords and values are compared with them, and messages for injected faults must carry the offending keyword's / enclosing opener's position.",
+     "property-based testing: renderer-known ground truth for positions + fault injection (Hypothesis)"),
+    ("C09", "Complete enumeration of annotated entry x versions around each bound x parent chain x root schema with an independent deep pruner + Draft-4 evaluation as the oracle, and a Hypothesis rule-based state machine over one Validator object and the module API compared with fresh Validators.",
+     "exhaustive enumeration with a reference pruner oracle + Hypothesis stateful machine (history independence)"),
     ("C16", DOC + "oracle: an independent reader of the printed text checks the layout contract line by line.",
      "property-based testing: independent reader / validity predicate over documents x option sets (Hypothesis)"),
     ("C17", "Exhaustive breadth-first exploration of every reachable state over a small key/value alphabet with every operation applied in every state, exhaustive operation sequences from the empty dict up to a length bound, and a Hypothesis rule-based state machine for long histories; oracle: reference model (OrderedDict keyed by lower-cased keys + default rule).",
